@@ -3,6 +3,7 @@ import logging
 from typing import List
 from typing import Optional
 
+from idpyoidc.client.current import response_info
 from idpyoidc.client.oauth2.utils import get_state_parameter
 from idpyoidc.client.oauth2.utils import pre_construct_pick_redirect_uri
 from idpyoidc.client.oauth2.utils import set_state_parameter
@@ -50,7 +51,7 @@ class Authorization(Service):
     def update_service_context(self, resp, key="", **kwargs):
         if "expires_in" in resp:
             resp["__expires_at"] = time_sans_frac() + int(resp["expires_in"])
-        self.upstream_get("context").cstate.update(key, resp)
+        self.upstream_get("context").cstate.update(key, response_info(resp))
 
     def store_auth_request(self, request_args=None, **kwargs):
         """Store the authorization request in the state DB."""
